@@ -6,6 +6,7 @@ package syntax
 
 import (
 	"fmt"
+	"sort"
 )
 
 func (pipeline *Pipeline) directDepsMap() (map[*CallStm]map[*CallStm]struct{}, error) {
@@ -54,9 +55,16 @@ func (pipeline *Pipeline) directDepsMap() (map[*CallStm]map[*CallStm]struct{}, e
 			}
 			return errs.If()
 		case *MapExp:
+			// Go through the keys in order, so that the order of the
+			// errors does not vary.
+			keys := make([]string, 0, len(exp.Value))
+			for key := range exp.Value {
+				keys = append(keys, key)
+			}
+			sort.Strings(keys)
 			var errs ErrorList
-			for _, subExp := range exp.Value {
-				if err := findDeps(src, subExp); err != nil {
+			for _, key := range keys {
+				if err := findDeps(src, exp.Value[key]); err != nil {
 					errs = append(errs, err)
 				}
 			}
